@@ -49,6 +49,8 @@ enum Ev {
     ProcessCancelled(usize, u32),
     /// stage, input value
     ProcessDone(usize, u32),
+    /// stage, input value: `process` returned an error for it
+    ProcessRejected(usize, u32),
     /// stage, value returned by `next`
     Emit(usize, u32),
     /// value delivered by the input stream
@@ -245,6 +247,12 @@ struct Scripted {
     /// Kind::Pairs: the item waiting for its partner
     held: RefCell<Option<u32>>,
     notify: Notify,
+    /// the value this stage's `process` rejects with an error (none: accepts everything)
+    reject: Option<u32>,
+}
+
+fn reject_msg(stage: usize, x: u32) -> String {
+    format!("rejected by stage {stage}: {x}")
 }
 
 fn stage_fn(stage: usize, x: u32) -> u32 {
@@ -279,6 +287,11 @@ impl Processor<u32> for Scripted {
         };
         // the "expensive" part of accepting an item (a transaction, a signature check, ...)
         self.env.delay("d.process").await;
+        if self.reject == Some(x) {
+            guard.done = true;
+            self.env.ev(Ev::ProcessRejected(self.stage, x));
+            return Err(reject_msg(self.stage, x));
+        }
         let v = stage_fn(self.stage, x);
         if self.kind == Kind::Pairs {
             let partner = self.held.borrow_mut().take();
@@ -321,7 +334,18 @@ impl Processor<u32> for Scripted {
 }
 
 fn scripted(env: &Rc<Env>, kind: Kind, stage: usize) -> Scripted {
+    scripted_r(env, kind, stage, None)
+}
+
+/// `cfg.reject = Some((stage, input))`: that stage rejects the value the input has become.
+fn scripted_c(env: &Rc<Env>, cfg: &Config, stage: usize) -> Scripted {
+    let reject = cfg.reject.filter(|(s, _)| *s == stage).map(|(s, x)| (0..s).fold(x, |v, k| stage_fn(k, v)));
+    scripted_r(env, cfg.kinds[stage], stage, reject)
+}
+
+fn scripted_r(env: &Rc<Env>, kind: Kind, stage: usize, reject: Option<u32>) -> Scripted {
     Scripted {
+        reject,
         kind,
         stage,
         env: env.clone(),
@@ -424,17 +448,24 @@ struct Config {
     max_delay: usize,
     /// deviation bound for this configuration
     max_dev: usize,
+    /// (stage, input): that stage's `process` rejects what this input has become; the error is an
+    /// output of the chain like any other and has to be yielded exactly once
+    reject: Option<(usize, u32)>,
 }
 
 impl Config {
     fn label(&self) -> String {
         format!(
-            "{}[{}] inputs={} end={} dev<={}",
+            "{}[{}] inputs={} end={} dev<={}{}",
             self.topo.name(),
             self.kinds.iter().map(|k| k.name()).collect::<Vec<_>>().join(","),
             self.inputs.len(),
             if self.terminates { "none" } else { "pending" },
-            self.max_dev
+            self.max_dev,
+            match self.reject {
+                Some((s, x)) => format!(" stage{s}-rejects-input{x}"),
+                None => String::new(),
+            }
         )
     }
     fn to_json(&self) -> Value {
@@ -445,6 +476,7 @@ impl Config {
             "terminates": self.terminates,
             "max_delay": self.max_delay,
             "max_dev": self.max_dev,
+            "reject": self.reject.map(|(s, x)| vec![s as u64, x as u64]),
         })
     }
     fn from_json(v: &Value) -> Option<Config> {
@@ -464,6 +496,7 @@ impl Config {
             terminates: v.get("terminates")?.as_bool()?,
             max_delay: v.get("max_delay")?.as_u64()? as usize,
             max_dev: v.get("max_dev").and_then(|x| x.as_u64()).unwrap_or(2) as usize,
+            reject: v.get("reject").and_then(|r| r.as_array()).and_then(|a| Some((a.first()?.as_u64()? as usize, a.get(1)?.as_u64()? as u32))),
         })
     }
     fn all_fifo(&self) -> bool {
@@ -509,7 +542,6 @@ fn run_inner(cfg: &Config, ch: &Chooser) -> Obs {
         waiting: None,
         terminates: cfg.terminates,
     };
-    let k = &cfg.kinds;
     let mut locals: Vec<LocalSet> = Vec::new();
     // Every ProcessorStream spawns its Buffer task with `spawn_local`; entering a LocalSet makes
     // it the target.  One LocalSet per stream layer, so the explorer schedules layers separately.
@@ -518,7 +550,7 @@ fn run_inner(cfg: &Config, ch: &Chooser) -> Obs {
             let l0 = LocalSet::new();
             let s = {
                 let _g = l0.enter();
-                erase(input.layer(scripted(&env, k[0], 0)))
+                erase(input.layer(scripted_c(&env, cfg, 0)))
             };
             locals.push(l0);
             s
@@ -528,12 +560,12 @@ fn run_inner(cfg: &Config, ch: &Chooser) -> Obs {
             let l1 = LocalSet::new();
             let s0 = {
                 let _g = l0.enter();
-                input.layer(scripted(&env, k[0], 0))
+                input.layer(scripted_c(&env, cfg, 0))
             };
             let s0 = strip_errors(&env, s0);
             let s1 = {
                 let _g = l1.enter();
-                erase(s0.layer(scripted(&env, k[1], 1)))
+                erase(s0.layer(scripted_c(&env, cfg, 1)))
             };
             locals.push(l0);
             locals.push(l1);
@@ -542,8 +574,8 @@ fn run_inner(cfg: &Config, ch: &Chooser) -> Obs {
         Topo::Composed2 => {
             let l0 = LocalSet::new();
             let p = PipelineBuilder::<u32>::new()
-                .layer(scripted(&env, k[0], 0))
-                .layer(scripted(&env, k[1], 1))
+                .layer(scripted_c(&env, cfg, 0))
+                .layer(scripted_c(&env, cfg, 1))
                 .build();
             let s = {
                 let _g = l0.enter();
@@ -555,9 +587,9 @@ fn run_inner(cfg: &Config, ch: &Chooser) -> Obs {
         Topo::Composed3 => {
             let l0 = LocalSet::new();
             let p = PipelineBuilder::<u32>::new()
-                .layer(scripted(&env, k[0], 0))
-                .layer(scripted(&env, k[1], 1))
-                .layer(scripted(&env, k[2], 2))
+                .layer(scripted_c(&env, cfg, 0))
+                .layer(scripted_c(&env, cfg, 1))
+                .layer(scripted_c(&env, cfg, 2))
                 .build();
             let s = {
                 let _g = l0.enter();
@@ -571,12 +603,12 @@ fn run_inner(cfg: &Config, ch: &Chooser) -> Obs {
             let l1 = LocalSet::new();
             let s0 = {
                 let _g = l0.enter();
-                input.layer(scripted(&env, k[0], 0))
+                input.layer(scripted_c(&env, cfg, 0))
             };
             let s0 = strip_errors(&env, s0);
             let p = PipelineBuilder::<u32>::new()
-                .layer(scripted(&env, k[1], 1))
-                .layer(scripted(&env, k[2], 2))
+                .layer(scripted_c(&env, cfg, 1))
+                .layer(scripted_c(&env, cfg, 2))
                 .build();
             let s1 = {
                 let _g = l1.enter();
@@ -677,6 +709,7 @@ fn fmt_log(log: &[Ev]) -> String {
             Ev::Input(x) => format!("in({x})"),
             Ev::ProcessStart(s, x) => format!("P{s}.process({x})<"),
             Ev::ProcessDone(s, x) => format!("P{s}.process({x})>"),
+            Ev::ProcessRejected(s, x) => format!("P{s}.process({x})REJECTED"),
             Ev::ProcessCancelled(s, x) => format!("P{s}.process({x})DROPPED"),
             Ev::Emit(s, x) => format!("P{s}.next->{x}"),
         })
@@ -706,20 +739,43 @@ fn judge(mv: &mut MinV, cfg: &Config, ch: &Chooser, o: &Obs) {
         mv.add("livelock/step-horizon".into(), size, || format!("no quiescence within 20000 steps; {}", ctx()), replay);
         return;
     }
-    if !o.errs.is_empty() {
-        mv.add("error-item".into(), size, || format!("error items {:?}; {}", o.errs, ctx()), replay);
+    // the error of a rejecting stage is an output of the chain: exactly once
+    let expected_errs: Vec<String> = cfg.reject.map(|(s, x)| vec![reject_msg(s, (0..s).fold(x, |v, k| stage_fn(k, v)))]).unwrap_or_default();
+    let mut extra_errs = o.errs.clone();
+    for e in &expected_errs {
+        if let Some(p) = extra_errs.iter().position(|x| x.contains(e.as_str())) {
+            extra_errs.remove(p);
+        } else {
+            let (s, x) = cfg.reject.unwrap();
+            let rejected = o.log.iter().any(|ev| matches!(ev, Ev::ProcessRejected(st, _) if *st == s));
+            if rejected {
+                let boundary = if s == 0 { "input".to_string() } else { cfg.topo.boundary_after(s - 1).to_string() };
+                mv.add(
+                    format!("lost/{boundary}/error-returned-by-process-never-yielded"),
+                    size,
+                    || format!("stage {s} rejected what input {x} had become, but the error was never yielded by the stream; {}", ctx()),
+                    replay,
+                );
+            }
+            // not rejected at all: the item never reached the stage; reported below as a lost input
+        }
+    }
+    if !extra_errs.is_empty() {
+        mv.add("error-item".into(), size, || format!("error items {:?}; {}", extra_errs, ctx()), replay);
     }
     if o.stream_ended {
         mv.add("stream-terminated".into(), size, || format!("the processor stream returned None; {}", ctx()), replay);
     }
-    let expected: Vec<u32> = cfg.inputs.iter().map(|x| cfg.expected(*x)).collect();
+    let rejected_reached = cfg.reject.is_some_and(|(s, _)| o.log.iter().any(|ev| matches!(ev, Ev::ProcessRejected(st, _) if *st == s)));
+    let ok_inputs: Vec<u32> = cfg.inputs.iter().copied().filter(|x| !(rejected_reached && cfg.reject.is_some_and(|(_, r)| r == *x))).collect();
+    let expected: Vec<u32> = ok_inputs.iter().map(|x| cfg.expected(*x)).collect();
     let mut rest = o.outs.clone();
     let mut missing = vec![];
     for (i, e) in expected.iter().enumerate() {
         if let Some(p) = rest.iter().position(|v| v == e) {
             rest.remove(p);
         } else {
-            missing.push(cfg.inputs[i]);
+            missing.push(ok_inputs[i]);
         }
     }
     for x in &missing {
@@ -791,6 +847,7 @@ fn configs(thorough: bool) -> Vec<Config> {
                         terminates,
                         max_delay: 2,
                         max_dev: if deep { base_dev + 1 } else { base_dev },
+                        reject: None,
                     });
                 }
             }
@@ -815,7 +872,30 @@ fn configs(thorough: bool) -> Vec<Config> {
                     terminates,
                     max_delay: 2,
                     max_dev: base_dev,
+                    reject: None,
                 });
+            }
+        }
+    }
+    // a stage that rejects one input: the error has to come out exactly once, whatever is
+    // cancelled around it
+    for &topo in topos {
+        for stage in 0..topo.stages() {
+            for len in 2..=3u32 {
+                for rejected in 1..=len {
+                    if !thorough && rejected == 3 {
+                        continue;
+                    }
+                    v.push(Config {
+                        topo,
+                        kinds: vec![Kind::Fifo; topo.stages()],
+                        inputs: (1..=len).collect(),
+                        terminates: true,
+                        max_delay: 2,
+                        max_dev: base_dev,
+                        reject: Some((stage, rejected)),
+                    });
+                }
             }
         }
     }
